@@ -5,12 +5,15 @@
 package storage
 
 import (
+	"sort"
+
 	"github.com/marekgalovic/anndb/index"
 	pb "github.com/marekgalovic/anndb/protobuf"
 	uuid "github.com/satori/go.uuid"
 )
 
 var _ index.Metadata
+var _ sort.Interface
 var _ *pb.BatchItem
 var _ uuid.UUID
 
@@ -137,6 +140,13 @@ var _ uuid.UUID
 //@ ensures [value] isnil(err) ==> u == uuidOfBytes(input)
 //@ modifies nothing
 
+// UUID.Bytes: a fresh 16-byte slice from which FromBytes recovers the id.
+//@ func (github.com/satori/go.uuid.UUID).Bytes
+//@ props C02 C04 C11 C12 C14 C09 C10 C17 C20
+//@ assume
+//@ ensures [roundtrip] len(ret) == 16 && fresh(ret) && uuidOfBytes(ret) == u
+//@ modifies nothing
+
 // proto.Unmarshal: fills the message it is given; nothing is assumed about the decoded content.
 //@ func github.com/golang/protobuf/proto.Unmarshal
 //@ props C02 C04 C11 C12 C14
@@ -258,3 +268,97 @@ var _ uuid.UUID
 //@ ensures [never-fails] decoded == 1 ==> isnil(ret) || notified == 0
 //@ ensures [applies] decoded == 1 && isnil(ret) ==> pwf(this)
 //@ modifies *
+
+// ---------------------------------------------------------------------------------------------
+// C17 / C09 / C11: dataset level. Goroutine bodies are not executed by the generator; each fan-out/fan-in function is
+// verified against an explicit channel protocol (hooks on send/recv/go), and each worker body is verified separately
+// against its side of that protocol.
+
+//@ spec wfDataset(d *Dataset) bool = d.clusterConn != nil && d.meta != nil && forall i int :: 0 <= i && i < len(d.partitions) ==> d.partitions[i] != nil && d.partitions[i].index != nil && d.partitions[i].meta != nil
+
+//@ func iface:context.Context.Done
+//@ props C17 C09 C11 C03 C05 C14
+//@ assume
+//@ pure
+//@ modifies nothing
+
+//@ func iface:context.Context.Err
+//@ props C17 C09 C11 C03 C05 C14
+//@ assume
+//@ pure
+//@ ensures [after-done] !isnil(ret)
+//@ modifies nothing
+
+//@ func (*storage.Dataset).getDataManagerClient
+//@ props C17 C11 C09
+//@ assume
+//@ ensures [client-xor-error] isnil(ret1) != isnil(ret0)
+//@ modifies map(this.dataManagerClients)
+
+//@ func (*storage.Dataset).getNodeSearchClient
+//@ props C09
+//@ assume
+//@ ensures [client-xor-error] isnil(ret1) != isnil(ret0)
+//@ modifies map(this.searchClients)
+
+//@ func (*storage.partition).isOnNode
+//@ props C17 C11 C09
+//@ assume
+//@ pure
+//@ modifies nothing
+
+//@ func (*storage.partition).randomNodeId
+//@ props C17 C11 C09
+//@ assume
+//@ pure
+//@ modifies nothing
+
+//@ func iface:protobuf.DataManagerClient.PartitionInfo
+//@ props C17
+//@ assume
+//@ ensures [resp-xor-error] isnil(ret1) ==> ret0 != nil
+//@ modifies nothing
+
+// remote worker of SizeInfo: on every path exactly one outcome - one error message, or both counters added once
+//@ func (*storage.Dataset).SizeInfo$1
+//@ props C17
+//@ safety C12
+//@ ghost sent int = 0
+//@ ghost sentNil int = 0
+//@ ghost added int = 0
+//@ at send param:errorCh
+//@ set sent = sent + 1
+//@ set sentNil = sentNil + ite(isnil($val), 1, 0)
+//@ end
+//@ at call sync/atomic.AddUint64
+//@ set added = added + 1
+//@ end
+//@ noclose errorCh
+//@ requires [captured] this != nil && *this != nil && partition != nil && *partition != nil && len != nil && bytesSize != nil
+//@ ensures [one-outcome] (sent == 1 && sentNil == 0 && added == 0) || (sent == 0 && added == 2)
+
+// SizeInfo: every partition is handled exactly once (counted locally, or handed to exactly one worker that captured it
+// stably); any non-nil message makes the call fail.
+//@ func (*storage.Dataset).SizeInfo
+//@ props C17
+//@ safety C12
+//@ ghost handled int = 0
+//@ ghost gotErr int = 0
+//@ at send local:errorCh
+//@ set handled = handled + 1
+//@ end
+//@ at go (*storage.Dataset).SizeInfo$1
+//@ set handled = handled + 1
+//@ end
+//@ at recv local:errorCh
+//@ set gotErr = ite(isnil($recv), gotErr, 1)
+//@ end
+//@ requires [wf] wfDataset(this)
+//@ requires [ctx] !isnil(ctx)
+//@ ensures [each-once] isnil(ret2) ==> handled == len(this.partitions)
+//@ ensures [fails-loudly] gotErr == 1 ==> !isnil(ret2)
+//@ loop 1
+//@ invariant [handled] handled == rangeindex + 1 && gotErr == 0
+//@ invariant [range] 0 - 1 <= rangeindex && rangeindex + 1 <= len(this.partitions)
+//@ loop 2
+//@ invariant [handled] handled == len(this.partitions) && gotErr == 0
